@@ -7,6 +7,8 @@ func C14(p *core.Prog, r *core.Report) {
 	Keys(p, r)
 	Key6(p, r)
 	Key78(p, r)
+	Key9(p, r)
+	Key10(p, r)
 	TryCacheRules(p, r)
 	Tee(p, r)
 	Commit(p, r)
